@@ -56,6 +56,7 @@ POOL = {
     "C": ["t/c", [["string", "s"], ["datetime", "t1"], ["datetime", "t2"]]],
     "A2": ["t/a", [["string", "s"], ["varint", "n"], ["string", "extra"]]],
     "D": ["t/d", [["boolean", "f"], ["string", "q"], ["varint", "n"]]],
+    "T": ["t/t", [["string[]", "tags"], ["varint", "n"]]],
 }
 
 # selector source, python predicate over the dict of the record's own (non-reserved) fields
@@ -72,13 +73,19 @@ SELECTORS = [
     ("r.s in ['x', 'y'] and r.n > 0", lambda d: d.get("s", M) in ["x", "y"] and ("n" in d and d["n"] is not None and d["n"] > 0)),
     ("r.f", lambda d: bool(d.get("f", False))),
     ("r.extra == 'e1' or r.n == 4", lambda d: d.get("extra", M) == "e1" or d.get("n", M) == 4),
+    ("'red' in r.tags", lambda d: "tags" in d and "red" in d["tags"]),
+    # generator expressions: the engines disagree on records that lack the field (C08), so these two are
+    # only drawn for inputs in which every record has it (see generate)
+    ("any(t == 'red' for t in r.tags)", lambda d: any(t == "red" for t in d["tags"])),
+    ("any(t in ['red', 'green'] for t in r.tags) and r.n > 1", lambda d: any(t in ["red", "green"] for t in d["tags"]) and d["n"] > 1),
 ]
+NEEDS_TAGS = {len(SELECTORS) - 2, len(SELECTORS) - 1}
 FAULT_KINDS = ["missing", "empty", "garbage", "dir", "trunc", "readerr", "badjson"]
 MODES = ["stream", "stream-gz", "jsonfile", "split", "jsonl", "json", "csv", "line", "line-verbose", "text", "list", "csvfile", "textfile", "linefile", "stdout-stream"]
 
 
 def budget(tier):
-    return n_systematic() + (12000 if tier == "quick" else 600000)
+    return n_systematic() + (40000 if tier == "quick" else 1500000)
 
 
 def wall_cap(tier):
@@ -86,8 +93,8 @@ def wall_cap(tier):
 
 
 # -- generation ---------------------------------------------------------------------------------
-def gen_rec(rng, i):
-    k = rng.choice(["A", "A", "B", "C", "A2", "D"])
+def gen_rec(rng, i, only=None):
+    k = only or rng.choice(["A", "A", "B", "C", "A2", "D", "T"])
     t = lambda h: {"$dt": (G + _dt.timedelta(hours=h)).replace(tzinfo=None).isoformat(), "off": 0}  # noqa: E731
     n = rng.choice([0, 1, 2, 3, 4])  # never None: ordering comparisons with None are selector semantics (C07), not slicing
     if k == "A":
@@ -98,6 +105,8 @@ def gen_rec(rng, i):
         vals = [rng.choice(["x", "y"]), t(0), t(24 + i)]
     elif k == "A2":
         vals = [rng.choice(["x", "z"]), n if n is not None else 2, rng.choice(["e1", "e2"])]
+    elif k == "T":
+        vals = [{"$l": [rng.choice(["red", "green", "blue"]) for _ in range(rng.choice([0, 1, 2, 3]))]}, n]
     else:
         vals = [rng.random() < 0.5, rng.choice(["q", "r"]), n if n is not None else 0]
     meta = {}
@@ -109,11 +118,11 @@ def gen_rec(rng, i):
     return {"desc": k, "values": vals, "meta": meta}
 
 
-def gen_source(rng, kind, idx, tier="quick"):
+def gen_source(rng, kind, idx, tier="quick", only=None):
     src = {"kind": kind, "idx": idx}
     n = rng.randrange(0, 7 if tier == "quick" else 30)
     if kind in ("good", "trunc", "readerr", "stdin"):
-        src["recs"] = [gen_rec(rng, i) for i in range(n if kind == "good" or n else 3)]
+        src["recs"] = [gen_rec(rng, i, only) for i in range(n if kind == "good" or n else 3)]
         src["codec"] = rng.choice(["none", "none", "gz", "bz2", "lz4", "zst"]) if kind in ("good", "stdin") else rng.choice(["none", "none", "gz"])
         src["neutral"] = rng.random() < 0.25 and kind != "stdin"
         if kind == "trunc":
@@ -122,7 +131,7 @@ def gen_source(rng, kind, idx, tier="quick"):
             src["read_error_at"] = rng.choice([0, 1, 1, 2, 3])
             src["read_buffer"] = rng.choice([16, 64, 8192])
     elif kind in ("json", "badjson"):
-        src["recs"] = [gen_rec(rng, i) for i in range(n)]
+        src["recs"] = [gen_rec(rng, i, only) for i in range(n)]
         if kind == "badjson":
             src["bad_line"] = rng.randrange(0, len(src["recs"]) + 1)
     return src
@@ -135,8 +144,8 @@ def gen_options(rng, mode):
     o["no_compile"] = rng.random() < 0.5
     o["skip"] = rng.choice([0, 0, 1, 3, 6])
     o["count"] = rng.choice([None, None, 1, 2, 5, 9])
-    o["F"] = rng.choice([None, None, None, "s", "n,s", "q,zz", "t,n", "extra,s"])
-    o["X"] = rng.choice([None, None, None, "n", "t", "q,extra"])
+    o["F"] = rng.choice([None, None, None, "s", "n,s", "q,zz", "t,n", "extra,s", "tags,n"])
+    o["X"] = rng.choice([None, None, None, "n", "t", "q,extra", "s"])
     o["rsrc"] = rng.choice([None, None, "SRC"])
     o["rcls"] = rng.choice([None, None, "CLS"])
     o["multi"] = rng.random() < 0.3
@@ -180,6 +189,9 @@ def generate(rng, tier, index):
             opts["count"] = 4
         return {"sources": sources, "opts": opts, "mode": mode, "pool": POOL, "systematic": True}
     n = rng.choice([1, 2, 3, 3, 4, 5, 6])
+    mode = rng.choice(MODES)
+    opts = gen_options(rng, mode)
+    only = "T" if opts["sel"] in NEEDS_TAGS else None
     sources = []
     have_stdin = False
     for i in range(n):
@@ -188,9 +200,8 @@ def generate(rng, tier, index):
             if have_stdin:
                 kind = "good"
             have_stdin = True
-        sources.append(gen_source(rng, kind, i, tier))
-    mode = rng.choice(MODES)
-    return {"sources": sources, "opts": gen_options(rng, mode), "mode": mode, "pool": POOL}
+        sources.append(gen_source(rng, kind, i, tier, only))
+    return {"sources": sources, "opts": opts, "mode": mode, "pool": POOL}
 
 
 # -- building sources -------------------------------------------------------------------------------
@@ -397,6 +408,8 @@ def json_form(v):
         return bool(v)
     if isinstance(v, int):
         return int(v)
+    if isinstance(v, (list, tuple)):
+        return [json_form(x) for x in v]
     return str(v)
 
 
